@@ -46,6 +46,8 @@ TRUSTED_BASE = [
     "GCXS.from_scipy_sparse (not modelled)",
 ]
 ASSUMPTIONS = [
+    "IEEE negative zero (real or imaginary part) is read as zero when results are compared (np.matmul yields -0.0 for "
+    "0 * negative; numerically equal, and not representable as an absent entry of a sparse array)",
     "element values form a commutative semiring in spgemm_den / spgemm_csc_den (hypothesis comm_semiring, instantiated at "
     "Z in the Examples and in the judge); float rounding, dtype promotion and overflow of narrow integers are not modelled "
     "(result dtypes: differential only, compared in Python)",
@@ -120,6 +122,26 @@ def _axes(ax):
     return ax
 
 
+def _plain(obj):
+    """vlib.plain with IEEE negative zeros (real or imaginary part) read as zero: -0.0 == 0.0 numerically, np.matmul
+    produces it for products like 0 * (-1.0), and a sparse array cannot store it as an absent entry; vlib.val_token
+    would make it an opaque token different from 0"""
+    np = _np()
+    import sparse
+    p = vlib.plain(obj)
+    try:
+        if isinstance(obj, np.ndarray) and obj.dtype.kind in "fc":
+            p["flat"] = [vlib.val_token(v) for v in (obj + 0).reshape(-1)]
+        elif isinstance(obj, (sparse.COO, sparse.GCXS)) and obj.dtype.kind in "fc":
+            p["data"] = [vlib.val_token(v) for v in (np.asarray(obj.data) + 0)]
+            p["fill"] = vlib.val_token(obj.fill_value + 0)
+        elif isinstance(obj, (float, complex, np.floating, np.complexfloating)):
+            p["v"] = vlib.val_token(obj + 0)
+    except Exception:  # noqa: BLE001
+        pass
+    return p
+
+
 _CALLS = []
 _FACTORIES = ("_dot_csr_csr_type", "_dot_csr_ndarray_type", "_dot_csr_ndarray_type_sparse", "_dot_csc_ndarray_type",
               "_dot_csc_ndarray_type_sparse", "_dot_coo_coo_type", "_dot_coo_ndarray_type", "_dot_coo_ndarray_type_sparse",
@@ -176,7 +198,7 @@ def impl_api(case):
         e = ref()
     except Exception as ex:  # noqa: BLE001
         e = ex
-    out["np"] = vlib.plain(e if isinstance(e, (BaseException, np.ndarray)) else np.asarray(e))
+    out["np"] = _plain(e if isinstance(e, (BaseException, np.ndarray)) else np.asarray(e))
     a = _mk(da, case["ka"], case["a"].get("caxes"))
     b = _mk(db, case["kb"], case["b"].get("caxes")) if db is not None else None
     try:
@@ -200,7 +222,7 @@ def impl_api(case):
             raise ValueError(op)
     except Exception as ex:  # noqa: BLE001
         r = ex
-    out["r"] = vlib.plain(r)
+    out["r"] = _plain(r)
     out["kernels"] = list(_CALLS)
     out["follow"] = []
     # downstream use of a 2-d sparse result: column slices (D8: unsorted rows make them wrong)
@@ -213,7 +235,7 @@ def impl_api(case):
                     s = r[:, lo:hi]
                 except Exception as ex:  # noqa: BLE001
                     s = ex
-                out["follow"].append({"lo": lo, "hi": hi, "r": vlib.plain(s), "np": vlib.plain(e[:, lo:hi])})
+                out["follow"].append({"lo": lo, "hi": hi, "r": _plain(s), "np": _plain(e[:, lo:hi])})
     return out
 
 
@@ -237,7 +259,7 @@ def impl_kernel(case):
             if k == "csr_csr":
                 out["count"] = int(C._csr_csr_count_nnz((m, p), ai, bi, ap, bp))
                 data, indices, indptr = C._dot_csr_csr_type(dt1, dt2)((m, p), ad, bd, ai, bi, ap, bp)
-                out["r"] = {"k": "gcxs", "shape": [m, p], "caxes": [0], "data": [vlib.val_token(v) for v in data],
+                out["r"] = {"k": "gcxs", "shape": [m, p], "caxes": [0], "data": [vlib.val_token(v + 0) for v in data],
                             "indices": [int(v) for v in indices], "indptr": [int(v) for v in indptr], "fill": 0,
                             "dtype": str(data.dtype)}
             else:
@@ -254,7 +276,7 @@ def impl_kernel(case):
                 np.cumsum(np.bincount(bc[0], minlength=n), out=b_indptr[1:])
                 co, data = C._dot_coo_coo_type(dt1, dt2)((m, p), ac, bc, ad, bd, a_indptr, b_indptr)
                 out["r"] = {"k": "coo", "shape": [m, p], "coords": [[int(co[0, t]), int(co[1, t])] for t in range(co.shape[1])],
-                            "data": [vlib.val_token(v) for v in data], "fill": 0, "dtype": str(data.dtype)}
+                            "data": [vlib.val_token(v + 0) for v in data], "fill": 0, "dtype": str(data.dtype)}
         elif k in ("coo_nd", "coo_nd_sparse"):
             co = np.array([case["rows"], case["cols"]], dtype=np.intp).reshape(2, len(case["data"]))
             data1 = np.array(case["data"], dtype=dt1)
@@ -266,7 +288,7 @@ def impl_kernel(case):
             else:
                 cc, dd = C._dot_coo_ndarray_type_sparse(dt1, dt2)(co, data1, array2, (m, p))
                 out["r"] = {"k": "coo", "shape": [m, p], "coords": [[int(cc[0, t]), int(cc[1, t])] for t in range(cc.shape[1])],
-                            "data": [vlib.val_token(v) for v in dd], "fill": 0, "dtype": str(dd.dtype)}
+                            "data": [vlib.val_token(v + 0) for v in dd], "fill": 0, "dtype": str(dd.dtype)}
         else:
             import sparse
             A = np.array(case["Ad"], dtype=dt1).reshape(m, n)
@@ -274,29 +296,29 @@ def impl_kernel(case):
             if k in ("csr_nd", "csr_nd_sparse"):
                 ad, ai, ap = _csr_arrays(case["A"], dt1)
                 if k == "csr_nd":
-                    out["r"] = vlib.plain(C._dot_csr_ndarray_type(dt1, dt2)((m, p), ad, ai, ap, B))
+                    out["r"] = _plain(C._dot_csr_ndarray_type(dt1, dt2)((m, p), ad, ai, ap, B))
                 else:
                     d, i, ip = C._dot_csr_ndarray_type_sparse(dt1, dt2)((m, p), ad, ai, ap, B)
-                    out["r"] = {"k": "gcxs", "shape": [m, p], "caxes": [0], "data": [vlib.val_token(v) for v in d],
+                    out["r"] = {"k": "gcxs", "shape": [m, p], "caxes": [0], "data": [vlib.val_token(v + 0) for v in d],
                                 "indices": [int(v) for v in i], "indptr": [int(v) for v in ip], "fill": 0, "dtype": str(d.dtype)}
             elif k in ("csc_nd", "csc_nd_sparse"):
                 ad, ai, ap = _csr_arrays(case["Ac"], dt1)
                 if k == "csc_nd":
-                    out["r"] = vlib.plain(C._dot_csc_ndarray_type(dt1, dt2)((m, n), (n, p), ad, ai, ap, B))
+                    out["r"] = _plain(C._dot_csc_ndarray_type(dt1, dt2)((m, n), (n, p), ad, ai, ap, B))
                 else:
                     d, i, ip = C._dot_csc_ndarray_type_sparse(dt1, dt2)((m, n), (n, p), ad, ai, ap, B)
-                    out["r"] = {"k": "gcxs", "shape": [m, p], "caxes": [1], "data": [vlib.val_token(v) for v in d],
+                    out["r"] = {"k": "gcxs", "shape": [m, p], "caxes": [1], "data": [vlib.val_token(v + 0) for v in d],
                                 "indices": [int(v) for v in i], "indptr": [int(v) for v in ip], "fill": 0, "dtype": str(d.dtype)}
             elif k in ("nd_coo", "nd_coo_sparse"):
                 cells = case["cells"]
                 co = np.array([[c[0] for c in cells], [c[1] for c in cells]], dtype=np.intp).reshape(2, len(cells))
                 d2 = np.array([c[2] for c in cells], dtype=dt2)
                 if k == "nd_coo":        # coords2 = b.coords
-                    out["r"] = vlib.plain(C._dot_ndarray_coo_type(dt1, dt2)(A, co, d2, (m, p)))
+                    out["r"] = _plain(C._dot_ndarray_coo_type(dt1, dt2)(A, co, d2, (m, p)))
                 else:                    # coords2 = b.T.coords
                     cc, dd = C._dot_ndarray_coo_type_sparse(dt1, dt2)(A, co, d2, (m, p))
                     out["r"] = {"k": "coo", "shape": [m, p], "coords": [[int(cc[0, t]), int(cc[1, t])] for t in range(cc.shape[1])],
-                                "data": [vlib.val_token(v) for v in dd], "fill": 0, "dtype": str(dd.dtype)}
+                                "data": [vlib.val_token(v + 0) for v in dd], "fill": 0, "dtype": str(dd.dtype)}
             else:
                 raise ValueError(k)
     except Exception as ex:  # noqa: BLE001
@@ -1055,6 +1077,8 @@ def _np_ref(case):
         else:
             e = np.outer(da, db)
         e = np.asarray(e)
+        if e.dtype.kind in "fc":
+            e = e + 0          # negative zeros read as zero (see _plain)
     except Exception as ex:  # noqa: BLE001
         n = type(ex).__name__
         return {"k": "exc", "exc": n if n in vlib.EXC_ENUM else "OtherError", "cls": n, "msg": str(ex)[:160]}
